@@ -372,8 +372,11 @@ def rejection(prog, rep):
     for st in cfg.all_stmts():
         if isinstance(st, ast.Assign) and isinstance(st.targets[0], ast.Name) and isinstance(st.value, ast.Call):
             t = b.term(st.value, st)
-            if t[0] == "call" and t[1] == ("attr", rng, "uniform") and len(t[2]) >= 2:
-                draws.append((st, t))
+            if t[0] == "call" and t[1] == ("attr", rng, "uniform"):
+                bu = bind(t, ["low", "high", "size"])
+                if bu is not None and "low" in bu and "high" in bu:
+                    # positional spelling: (low, high) + size keyword
+                    draws.append((st, ("call", t[1], (bu["low"], bu["high"]), (("size", bu["size"]),) if "size" in bu else ())))
     site = fn.where(draws[0][0]) if draws else fn.where()
     if len(draws) != 2:
         rep.fail("C16.reject", f"{q}:candidates", site, f"expected the two uniform candidate draws (abscissa, ordinate) from default_rng(random_state); found {len(draws)}")
